@@ -10,6 +10,7 @@ from hypothesis import strategies as st
 from hypothesis.stateful import RuleBasedStateMachine, rule, initialize, precondition
 from vf.runner import (hyp_stateful, run_cases, fail, exc_failure, Violation, _in_code_under_test)
 
+THOROUGH_SCALE = 3      # multiplies every generated-case budget of the thorough tier
 RULE = ("histories of 1..30 operations drawn by a Hypothesis state machine from: addcolumn (new/existing), "
         "setcolumn, item and attribute assignment (scalar/array), in-place writes through the attribute, item "
         "and getcolumn views, filter, removerows (integer and tolerance), sortby, reorder, copy, copyrows "
